@@ -420,6 +420,11 @@ func (p *proxyConn) writeErrorResponse(req *http.Request, err error) error {
 	res := maybeConnectErrorResponse(err)
 	if res == nil {
 		res = p.errorResponse(req, err)
+	} else {
+		// The upstream proxy's reply was built for the CONNECT request sent to it;
+		// here it answers the client's request, which decides how it is framed
+		// (no body in reply to HEAD, no chunked coding for HTTP/1.0).
+		res.Request = req
 	}
 	// The challenge of a 407 generated by this proxy is addressed to the client;
 	// the hop-by-hop response modifier must not strip it.
